@@ -59,8 +59,8 @@ Print Assumptions C02_parse_render_name_date.
 (* fractions, token level: the seconds token "SS.f" (f = the first k digits of the six-digit
    microsecond, zero-extended beyond six; the lexer has already turned a decimal comma into a dot,
    LexSeg.lex_frac) is read by _parsems as (SS, microsecond truncated to k digits), k = 1..9.
-   (Whole-template statements for the fraction forms are tested-only: the symbolic execution of one
-   case needed > 20 GB.) *)
+   Whole-template statements for the fraction forms: C02_parse_render_iso_frac below and the
+   `_frac_*` / `_iso_frac_*` / `_compact_frac*` theorems of coq/props/C02x.v. *)
 Theorem C02_frac_token_value : forall s k us,
   0 <= s < 100 -> (1 <= k <= 9)%nat -> 0 <= us < 1000000 ->
   parsems (digits_n 2 s ++ 46 :: frac_digits k us) = Ok (s, trunc_us k us).
@@ -170,7 +170,8 @@ Theorem C02_parse_render_flag_dates : forall f jt d o df cy loc n0 n1 ig,
 Proof. exact parse_render_flag_dates_lemma. Qed.
 Print Assumptions C02_parse_render_flag_dates.
 
-(* YYYYMMDD{T, space}HHMM[SS] followed by +HH:MM / +HH / +HHMM (either sign) *)
+(* (compact forms followed by numeric offsets, Z/UTC/GMT after other date forms, 12-hour clock after other date
+   forms, fractions after other date forms, time-only forms with zones ...: coq/props/C02x.v) *)
 
 (* F-C02-padyear: inside the complement of the guard the round trip fails on the faithful model
    ("25 Sep 0099" and "Sat Sep 25 10:36:28 0099" are read as 1999) *)
